@@ -32,25 +32,25 @@ import sysgen
 
 LEAN_MODULE = "PydjinniModel.Props.C10"
 THEOREMS = [
-    "Pydjinni.Sys.leL_total",
-    "Pydjinni.Sys.leL_trans",
-    "Pydjinni.Sys.leL_antisymm",
-    "Pydjinni.Sys.isort_perm",
-    "Pydjinni.Sys.isort_sorted",
-    "Pydjinni.Sys.isort_eq_of_perm",
-    "Pydjinni.Sys.jinjaSortTotal_perm",
-    "Pydjinni.Sys.set_order_irrelevant",
-    "Pydjinni.Sys.legacy_sort_leaks_order",
-    "Pydjinni.Sys.sorted_loops_order_irrelevant",
-    "Pydjinni.Sys.generateGens_genCfg",
-    "Pydjinni.Sys.generateGens_state_irrelevant",
-    "Pydjinni.Sys.generate_history_free",
-    "Pydjinni.Sys.runCalls_fromWorld",
-    "Pydjinni.Sys.generate_history_free_run",
-    "Pydjinni.Sys.config_leak_counterexample",
-    "Pydjinni.Sys.report_accumulates_counterexample",
-    "Pydjinni.Sys.applyWrites_comm",
-    "Pydjinni.Sys.target_order_irrelevant",
+    "Pydjinni.SysC.leL_total",
+    "Pydjinni.SysC.leL_trans",
+    "Pydjinni.SysC.leL_antisymm",
+    "Pydjinni.SysC.isort_perm",
+    "Pydjinni.SysC.isort_sorted",
+    "Pydjinni.SysC.isort_eq_of_perm",
+    "Pydjinni.SysC.jinjaSortTotal_perm",
+    "Pydjinni.SysC.set_order_irrelevant",
+    "Pydjinni.SysC.legacy_sort_leaks_order",
+    "Pydjinni.SysC.sorted_loops_order_irrelevant",
+    "Pydjinni.SysC.generateGens_genCfg",
+    "Pydjinni.SysC.generateGens_state_irrelevant",
+    "Pydjinni.SysC.generate_history_free",
+    "Pydjinni.SysC.runCalls_fromWorld",
+    "Pydjinni.SysC.generate_history_free_run",
+    "Pydjinni.SysC.config_leak_counterexample",
+    "Pydjinni.SysC.report_accumulates_counterexample",
+    "Pydjinni.SysC.applyWrites_comm",
+    "Pydjinni.SysC.target_order_irrelevant",
 ]
 LEVEL = "proof"
 TRUSTED = ["template fact extractor (Jinja AST walk + return annotations of the marshalling properties); complemented by a run-time probe on jinja's LoopContext",
@@ -133,7 +133,7 @@ def facts_lean(rows):
             ", ".join(lean_str(f) for f in r["filters"])) for r in rows)
     nset = sum(1 for r in rows if r["overSet"])
     return f"""import PydjinniModel.Sys.Api
-open Pydjinni.Sys
+open Pydjinni.SysC
 /-! generated from the live templates by harness/props/c10.py — do not edit -/
 def facts : List LoopFact := [
   {items}]
